@@ -101,7 +101,7 @@ void *memset(void *dst, int c, size_t n)
 sqfs_file_t g_file;
 sqfs_u64 g_fsize;
 unsigned g_wr_calls;
-struct { sqfs_u64 off; size_t n; const void *buf; sqfs_u8 b0, b1;
+struct { sqfs_u64 off, size_at_call; size_t n; const void *buf; sqfs_u8 b0, b1;
 	 bool cmp_out_at_2, cpy_dst_at_2; /* buf+2 == last do_block out / memcpy dst */ }
 	g_wr[C03_WLOG];
 unsigned g_faults;
@@ -115,6 +115,7 @@ int stub_write_at(sqfs_file_t *file, sqfs_u64 offset, const void *buffer,
 	VERIF_ASSERT(VERIF_R_OK(buffer, size), C03_P ".env.write_at_pre");
 	if (g_wr_calls < C03_WLOG) {
 		g_wr[g_wr_calls].off = offset;
+		g_wr[g_wr_calls].size_at_call = g_fsize;
 		g_wr[g_wr_calls].n = size;
 		g_wr[g_wr_calls].buf = buffer;
 		if (size >= 2) {
